@@ -6,6 +6,20 @@ import PPModel.Mod.Parse
 -/
 namespace PP.Parse
 
+/-- the character-level terminals whose matching the combinator reading takes as given (their conformance to their
+    reference definitions is the subject of C17 / C18): the transcribed `parseImpl` of the terminal -/
+def termImpl (k : Kind) (s : List Char) (loc : Nat) : Option Out :=
+  match k with
+  | .caselessLit mU ret => some (caselessLitImpl mU ret s loc)
+  | .keyword m ident cl => some (keywordImpl m ident cl s loc)
+  | .word init body mn mx maxSpec asKw viaRe =>
+      some (if viaRe then wordReImpl init body mn mx asKw s loc else wordSlowImpl init body mn mx maxSpec asKw s loc)
+  | .charsNotIn notc mn mx => some (charsNotInImpl notc mn mx s loc)
+  | .lineEnd => some (lineEndImpl s loc)
+  | .wordStart cs => some (wordStartImpl cs s loc)
+  | .wordEnd cs => some (wordEndImpl cs s loc)
+  | _ => none
+
 /-- what a plain node's kind may be -/
 def plainKind : Kind → Bool
   | .lit m => !m.isEmpty
@@ -13,6 +27,13 @@ def plainKind : Kind → Bool
   | .empty => true
   | .noMatch => true
   | .stringEnd => true
+  | .caselessLit _ _ => true
+  | .keyword _ _ _ => true
+  | .word _ _ _ _ _ _ _ => true
+  | .charsNotIn _ _ _ => true
+  | .lineEnd => true
+  | .wordStart _ => true
+  | .wordEnd _ => true
   | .and es => !es.isEmpty
   | .matchFirst _ => true
   | .opt _ none => true
